@@ -61,7 +61,9 @@ const (
 	OpUToF   // unsigned BV -> F64 (RNE)
 	OpFToS   // F64 -> signed BV (RTZ); out of range unspecified
 	OpFToU   // F64 -> unsigned BV (RTZ)
-	OpFBits  // F64 -> BV64 (via fresh var constraint at print time); only evaluator + printer special
+	OpFBits  // F64 -> BV64 (unused; Float64bits is modelled by a defined variable, see DefineBits)
+	OpFFromBits // BV64 -> F64 reinterpretation ((_ to_fp 11 53) bv)
+	OpFSame     // Bool: bitwise-identical floats (SMT `=` on FloatingPoint)
 	OpUF     // uninterpreted function: Name, A = argument; W = result width (0 bool)
 )
 
@@ -702,6 +704,20 @@ func FUn(op Op, a *Term) *Term {
 	}
 }
 
+func FFromBits(a *Term) *Term {
+	if a.IsConst() {
+		return mk(OpConst, 64, true, nil, nil, nil, a.K, "", nil)
+	}
+	return mk(OpFFromBits, 64, true, a, nil, nil, 0, "", nil)
+}
+
+func FSame(a, b *Term) *Term {
+	if a.IsConst() && b.IsConst() {
+		return BoolT(a.K == b.K)
+	}
+	return mk(OpFSame, 0, false, a, b, nil, 0, "", nil)
+}
+
 func IntToF(a *Term, signed bool) *Term {
 	if a.IsConst() {
 		if signed {
@@ -854,8 +870,10 @@ func (e *Evaluator) Eval(t *Term) uint64 {
 		v = uint64(int64(math.Float64frombits(e.Eval(t.A)))) & mask(t.W)
 	case OpFToU:
 		v = uint64(math.Float64frombits(e.Eval(t.A))) & mask(t.W)
-	case OpFBits:
+	case OpFBits, OpFFromBits:
 		v = e.Eval(t.A)
+	case OpFSame:
+		v = b2u(e.Eval(t.A) == e.Eval(t.B))
 	default:
 		panic(fmt.Sprintf("Eval: op %d", t.Op))
 	}
@@ -970,6 +988,10 @@ func (p *Printer) Ref(t *Term) string {
 		body = fmt.Sprintf("((_ fp.to_sbv %d) RTZ %s)", t.W, p.Ref(t.A))
 	case OpFToU:
 		body = fmt.Sprintf("((_ fp.to_ubv %d) RTZ %s)", t.W, p.Ref(t.A))
+	case OpFFromBits:
+		body = fmt.Sprintf("((_ to_fp 11 53) %s)", p.Ref(t.A))
+	case OpFSame:
+		body = fmt.Sprintf("(= %s %s)", p.Ref(t.A), p.Ref(t.B))
 	default:
 		name, ok := opNames[t.Op]
 		if !ok {
